@@ -108,6 +108,8 @@ type BatchOutcome struct {
 	Detail   string
 	AnaS     float64
 	ValidLog map[string][]gen.Event // bits -> events (only kept when KeepEvents)
+	// CfgCrash lists configurations whose isolated child did not return a result: (config, status, log tail)
+	CfgCrash [][3]string
 }
 
 // ChainOpts parametrises batch processing.
@@ -124,6 +126,8 @@ type ChainOpts struct {
 	NativeEnv    []string
 	// Analysis is "taint" (default) or "backtrace".
 	Analysis string
+	// IsolateCfgs runs every configuration in its own child process.
+	IsolateCfgs bool
 }
 
 func usesCond(files map[string]string) bool {
@@ -222,19 +226,52 @@ func processBatch(run *core.Run, name string, b *gen.Batch, opts ChainOpts) *Bat
 	for _, ch := range b.Chains {
 		job.GuardFuncs = append(job.GuardFuncs, fmt.Sprintf("chain%d", ch.ID))
 	}
-	jf := filepath.Join(o.Dir, "taint.job.json")
-	core.WriteJSON(jf, job)
-	cr := SpawnWorker("taint", jf, opts.Watchdog)
-	if cr.Status != "ok" {
-		o.Status = "analyzer-" + cr.Status
-		data, _ := os.ReadFile(cr.LogFile)
-		o.Detail = tailStr(string(data), 6000)
-		return o
-	}
 	var res TaintJobResult
-	if err := core.ReadJSON(job.Out, &res); err != nil {
-		o.Status, o.Detail = "analyzer-fail", err.Error()
-		return o
+	if opts.IsolateCfgs {
+		// one child per configuration: a crash under one configuration must not lose the answers of the others
+		res = TaintJobResult{Results: map[string][]ana.TaintResult{}, Waived: map[string][]string{}}
+		for ri, rs := range job.Runs {
+			one := &TaintJob{Dir: job.Dir, Runs: []TaintRunSpec{rs}, GuardFuncs: job.GuardFuncs, Out: filepath.Join(o.Dir, fmt.Sprintf("taint.out-%d.json", ri))}
+			jf := filepath.Join(o.Dir, fmt.Sprintf("taint.job-%d.json", ri))
+			core.WriteJSON(jf, one)
+			cr := SpawnWorker("taint", jf, opts.Watchdog)
+			if cr.Status != "ok" {
+				data, _ := os.ReadFile(cr.LogFile)
+				o.CfgCrash = append(o.CfgCrash, [3]string{rs.Name, cr.Status, tailStr(string(data), 6000)})
+				continue
+			}
+			var r1 TaintJobResult
+			if err := core.ReadJSON(one.Out, &r1); err != nil || r1.Err != "" {
+				o.CfgCrash = append(o.CfgCrash, [3]string{rs.Name, "fail", r1.Err})
+				continue
+			}
+			for k, v := range r1.Results {
+				res.Results[k] = v
+			}
+			for k, v := range r1.Waived {
+				res.Waived[k] = mergeSorted(res.Waived[k], v)
+			}
+			res.AnaS += r1.AnaS
+		}
+		if len(res.Results) == 0 && len(o.CfgCrash) > 0 {
+			o.Status = "analyzer-" + o.CfgCrash[0][1]
+			o.Detail = o.CfgCrash[0][2]
+			return o
+		}
+	} else {
+		jf := filepath.Join(o.Dir, "taint.job.json")
+		core.WriteJSON(jf, job)
+		cr := SpawnWorker("taint", jf, opts.Watchdog)
+		if cr.Status != "ok" {
+			o.Status = "analyzer-" + cr.Status
+			data, _ := os.ReadFile(cr.LogFile)
+			o.Detail = tailStr(string(data), 6000)
+			return o
+		}
+		if err := core.ReadJSON(job.Out, &res); err != nil {
+			o.Status, o.Detail = "analyzer-fail", err.Error()
+			return o
+		}
 	}
 	if res.Err != "" {
 		o.Status, o.Detail = "analyzer-fail", res.Err
@@ -317,7 +354,15 @@ func FindMisses(o *BatchOutcome, cfgs []ChainCfg, accept func(o *BatchOutcome, c
 		for _, c := range cfgs {
 			reps := o.Reported[c.Name]
 			if len(reps) == 0 {
-				bad = append(bad, c.Name+"(no result)")
+				crashed := false
+				for _, cc := range o.CfgCrash {
+					if cc[0] == c.Name {
+						crashed = true
+					}
+				}
+				if !crashed {
+					bad = append(bad, c.Name+"(no result)")
+				}
 				continue
 			}
 			for ri, rep := range reps {
@@ -469,8 +514,19 @@ func Attribute(run *core.Run, misses []Miss, opts ChainOpts, accept func(o *Batc
 				// every sub-chain without the listed single-link findings passes: explained by the list
 				continue
 			}
-			// The miss did not reproduce on re-run: intermittent analyzer behaviour; report it as such.
-			reportViolation(run, full+sigSuffix+"#intermittent", m, "miss did not reproduce when the chain was re-run alone")
+			// The miss did not reproduce on re-run: intermittent analyzer behaviour. It is attributed to a link
+			// that is listed as intermittently failing (sig "<link>#intermittent"), otherwise reported as such.
+			attributed := false
+			for _, l := range m.Chain.Links {
+				if known[l+"#intermittent"+sigSuffix] {
+					run.IsKnown(l + "#intermittent" + sigSuffix)
+					attributed = true
+					break
+				}
+			}
+			if !attributed {
+				reportViolation(run, full+sigSuffix+"#intermittent", m, "miss did not reproduce when the chain was re-run alone")
+			}
 			continue
 		}
 		// minimal failing keys: those with no failing proper subsequence
